@@ -360,6 +360,34 @@ func checkC14(rep *core.Report) {
 			r2.Fail(name+":handoff", p.recv.Pos(), "the dequeued message never reaches a back-end call")
 			continue
 		}
+		// a container the message is put into and that is handed over by reference must be a fresh object per
+		// dequeued message: asynchronous clients keep the pointer and read it later
+		for _, h := range handoffs {
+			var ops []ssa.Value
+			switch x := h.ins.(type) {
+			case *ssa.Send:
+				ops = append(ops, x.X)
+			case *ssa.Select:
+				for _, st := range x.States {
+					if st.Dir == types.SendOnly {
+						ops = append(ops, st.Send)
+					}
+				}
+			case ssa.CallInstruction:
+				ops = append(ops, x.Common().Args...)
+			}
+			for _, op := range ops {
+				al, isAlloc := underIface(stripConv(op)).(*ssa.Alloc)
+				if !isAlloc || p.loop == nil {
+					continue
+				}
+				if _, isStruct := core.Deref(al.Type()).Underlying().(*types.Struct); !isStruct {
+					continue
+				}
+				r2.Check(p.loop.Blocks[al.Block()], name+":fresh-container-per-message", h.ins.Pos(), "the object handed over is allocated for this message",
+					"the message is put into an object allocated once, outside the dequeue loop, and that object is handed to the back-end by reference for every message: a client that reads it later (asynchronous producers do) sees the payload of a later message - duplicates and losses with no error reported")
+			}
+		}
 		isRaw := strings.Contains(strings.ToLower(p.typ), "rawsocket")
 		for _, h := range handoffs {
 			want := 0
